@@ -14,6 +14,7 @@ mod funcs;
 mod refimpl;
 mod xmlre;
 mod policyre;
+mod fsprobe;
 
 type Log = Arc<Mutex<Vec<Value>>>;
 
@@ -382,6 +383,11 @@ fn main() {
         "fn" => {
             let out = funcs::call(&args[2], &args[3..]);
             println!("{out}");
+        }
+        "fsprobe" => {
+            // args: <scratch directory> (created, used, removed)
+            std::panic::set_hook(Box::new(|_| {}));
+            println!("{}", rt.block_on(fsprobe::run(&args[2])));
         }
         "policy" => {
             // args: <file.json> = [{"type":..,"desc":..} | {"type":..,"text":..}, ..]
